@@ -114,3 +114,18 @@ Proof.
   rewrite (scan_is_loop specs b orig order xs (orig, c0) []); [reflexivity| |exact NW].
   cbn [fst]. split; [exact L1|]. split; [exact L2|exact Inv].
 Qed.
+
+(* nn.remat_scan(lengths) is the loop over prod(lengths) layers in row-major order, for every nesting *)
+Lemma nest_ind' {W} (P : nest W -> Prop) :
+  (forall w, P (NLeaf w)) -> (forall kids, Forall P kids -> P (NNode kids)) -> forall t, P t.
+Proof.
+  intros HL HN. fix IH 1. intros [w|kids]; [apply HL|]. apply HN.
+  induction kids as [|k r IHr]; constructor; [apply IH|exact IHr].
+Qed.
+
+Theorem nested_scan_is_loop {C W} (layer : C -> W -> C) : forall t c, nscan C W layer c t = fold_left layer (nflatten W t) c.
+Proof.
+  induction t as [w|kids IH] using nest_ind'; intros c; [reflexivity|].
+  cbn [nscan nflatten]. revert c. induction IH as [|k r Hk Hr IHr]; intros c; [reflexivity|].
+  cbn [fold_left flat_map]. rewrite fold_left_app, <- Hk. apply IHr.
+Qed.
